@@ -126,6 +126,100 @@ def pool():
     return out
 
 
+_POOL2 = None
+FAILING2 = ('T204', 'T203def', 'Br', 'X7777')
+
+
+def pool2():
+    """Operator-state pool (all master version 33, so the table cache is not what varies): messages that leave an
+    operator register, a 203 reference table, an associated-field stack, a bitmap or a back-reference list in force when
+    the template ends or when decoding fails half-way, followed by plain messages over the same elements.  Any of that
+    state surviving in the decoder/encoder object, in a shared default object or in the cached table entries changes the
+    plain messages.  [(name, bytes)]"""
+    global _POOL2
+    if _POOL2 is not None:
+        return _POOL2
+    from mc.ref.bits import BitBuf
+    Bv, Dv = tables.load(33, None)
+    defs = [
+        ('P', [5002, 12101, 1001, 10, 2001], 1, False),
+        ('Pc', [5002, 12101, 1001, 10, 2001], 2, True),
+        ('S203', [203012, 5002, 12101, 203255, 5002, 12101, 203000, 5002], 1, False),
+        ('S203o', [203012, 5002, 203255, 5002, 12101], 1, False),
+        ('O204', [204003, 31021, 1001, 5002], 1, False),
+        ('F204', [204003, 31021, 1001, 5002, 12101, 204000, 10], 1, False),
+        ('O201', [201130, 202129, 5002, 12101], 1, False),
+        ('O207', [207002, 5002, 1001], 1, False),
+        ('O208', [208002, 10, 10], 1, False),
+        ('O221', [1001, 221002, 5002], 1, False),
+        ('Bm', [1001, 5002, 224000, 236000, 101002, 31031, 8023, 224255], 1, False),
+    ]
+    out = []
+    for name, descs, nsub, comp in defs:
+        cnt = [0]
+
+        def ch(info):
+            cnt[0] += 1
+            if info.get('role') == 'factor':
+                v = 2
+            elif info.get('role') == 'bit':
+                v = 1 if cnt[0] % 2 else 0
+            elif info['kind'] == 'str':
+                v = b'k' * max(1, info['width'] // 8)
+            elif info.get('role') == 'refval' or info['kind'] == 'refval':
+                v = -300
+            else:
+                v = (5 * cnt[0] + 3) % ((1 << info['width']) - 1)
+            if comp:
+                return [v] * nsub if (info.get('role') or info['kind'] == 'str') else [min(v + k, (1 << info['width']) - 2) for k in range(nsub)]
+            return v
+        buf, subs, notes, nb = codec.encode(Bv, Dv, descs, nsub, comp, ch)
+        out.append((name, message.build(message.Spec(meta={'master_table_version': 33}, descs=descs, nsub=nsub, compressed=comp), buf)[0]))
+    byname = dict(out)
+    out.append(('T204', byname['F204'][:-9]))            # fails while 204 is in force
+    out.append(('T203def', byname['S203'][:-12]))        # fails inside / right after the 203 definitions
+    zero = BitBuf()
+    zero.put(0, 96)
+    # recall (237000) of a bitmap that this message never defined: fails in a fresh process
+    out.append(('Br', message.build(message.Spec(meta={'master_table_version': 33},
+                                                 descs=[12101, 1001, 224000, 237000, 8023, 224255]), zero)[0]))
+    # the stop signature overwritten: decodable only when value expectations are ignored
+    out.append(('X7777', byname['P'][:-4] + b'777\0'))
+    # the plain message in editions 3 and 2 (their section-1 layouts differ from edition 4)
+    for ed in (3, 2):
+        cnt = [0]
+
+        def ch2(info):
+            cnt[0] += 1
+            return b'k' if info['kind'] == 'str' else (5 * cnt[0] + 3) % ((1 << info['width']) - 1)
+        buf, subs, notes, nb = codec.encode(Bv, Dv, [5002, 12101, 1001, 10, 2001], 1, False, ch2)
+        out.append(('P%d' % ed, message.build(message.Spec(edition=ed, meta={'master_table_version': 33},
+                                                           descs=[5002, 12101, 1001, 10, 2001]), buf)[0]))
+    _POOL2 = out
+    return out
+
+
+OPS2 = None
+
+
+def ops2():
+    global OPS2
+    if OPS2 is None:
+        P = pool2()
+        byname = dict(P)
+        o = [('D:' + n, 'D', b) for n, b in P]
+        o += [('E:' + n, 'E', byname[n]) for n in ('P', 'Pc', 'S203', 'Bm')]
+        o += [('R:' + n, 'R', byname[n]) for n in ('P', 'Bm')]
+        o += [('Di:' + n, 'Di', byname[n]) for n in ('P', 'X7777')]
+        o += [('Dn:' + n, 'Dn', byname[n]) for n in ('P', 'P3', 'X7777')]
+        OPS2 = o
+    return OPS2
+
+
+def _ops_of(which):
+    return ops2() if which == 'opstate' else ops()
+
+
 QUERIES = ['/%06d' % X, '>002001', '@[0]/005002', '/005002.D05002', '/101000.031001']
 OPS = None
 
@@ -161,7 +255,7 @@ class World(object):
 
     def run(self, op):
         name, kind, i = op
-        b = pool()[i][1]
+        b = i if isinstance(i, bytes) else pool()[i][1]
         with contextlib.redirect_stderr(io.StringIO()):
             try:
                 return self._run(kind, b)
@@ -175,6 +269,14 @@ class World(object):
             td = m.template_data.value
             return repr([([str(x) for x in td.decoded_descriptors_all_subsets[k]], list(td.decoded_values_all_subsets[k]),
                           sorted(td.bitmap_links_all_subsets[k].items())) for k in range(len(td.decoded_values_all_subsets))])
+        if kind in ('Di', 'Dn'):
+            # decoding options of ONE call must not stick to the decoder object: Di = ignore_value_expectation, Dn = info_only
+            m = self.dec.process(b, wire_template_data=False, ignore_value_expectation=(kind == 'Di'), info_only=(kind == 'Dn'))
+            obs = [[(par.name, par.value) for par in sec if par.name != 'template_data'] for sec in m.sections]
+            if kind == 'Di':
+                td = m.template_data.value
+                obs.append([list(v) for v in td.decoded_values_all_subsets])
+            return repr(obs)
         if kind == 'E':
             # the input of the encoder is fixed data (computed once by an unrelated decoder), not a product of the history
             return self.enc.process(json.loads(FLAT[b]), wire_template_data=False).serialized_bytes.hex()
@@ -213,37 +315,63 @@ class World(object):
 FLAT = {}
 
 
-def prepare_flat(root):
-    """flat JSON text of the encodable pool messages (input data of the E operations)"""
+def _all_pool():
+    return pool() + pool2()
+
+
+def flat_main(argv):
+    """python -m mc.checks.c13 flat <root> <k>: flat JSON text of pool message k, decoded as the FIRST thing of a process"""
     from pybufrkit.decoder import Decoder
     from pybufrkit.renderer import FlatJsonRenderer
     from pybufrkit.utils import EntityEncoder
-    import pybufrkit.tables as pt
-    pt.TableGroupCacheManager._TABLE_GROUP_CACHE = pt.TableGroupCache()
-    d = Decoder(tables_root_dir=root)
-    for name, b in pool():
-        try:
-            with contextlib.redirect_stderr(io.StringIO()):
-                FLAT[b] = json.dumps(FlatJsonRenderer().render(d.process(b, wire_template_data=False)), cls=EntityEncoder)
-        except Exception:
-            pass
-    pt.TableGroupCacheManager._TABLE_GROUP_CACHE = pt.TableGroupCache()
+    root, k = argv[0], int(argv[1])
+    b = _all_pool()[k][1]
+    try:
+        with contextlib.redirect_stderr(io.StringIO()):
+            sys.stdout.write(json.dumps(FlatJsonRenderer().render(Decoder(tables_root_dir=root).process(b, wire_template_data=False)),
+                                        cls=EntityEncoder))
+    except Exception:
+        sys.stdout.write('')
+    return 0
+
+
+def prepare_flat(root):
+    """flat JSON text of the encodable pool messages (input data of the E operations).  Each one comes from its own
+    fresh process (so it cannot carry what another message left behind) and is cached in a file next to the tables;
+    golden processes and workers only read that file."""
+    path = os.path.join(root, 'flat.json')
+    if not os.path.exists(path):
+        env = dict(os.environ, PYTHONPATH=REPO + ':' + VERIF)
+        P = _all_pool()
+        procs = [subprocess.Popen([sys.executable, '-m', 'mc.checks.c13', 'flat', root, str(k)], cwd=VERIF, env=env,
+                                  stdout=subprocess.PIPE, stderr=subprocess.PIPE, text=True) for k in range(len(P))]
+        d = {}
+        for (name, b), pr in zip(P, procs):
+            o, e = pr.communicate(timeout=300)
+            if pr.returncode == 0 and o:
+                d[b.hex()] = o
+        with open(path + '.tmp', 'w') as f:
+            json.dump(d, f)
+        os.replace(path + '.tmp', path)
+    with open(path) as f:
+        for k, v in json.load(f).items():
+            FLAT[bytes.fromhex(k)] = v
 
 
 def golden_main(argv):
     """python -m mc.checks.c13 golden <root> <op index>: the observation of one operation as the FIRST thing a process does"""
-    root, k = argv[0], int(argv[1])
+    root, which, k = argv[0], argv[1], int(argv[2])
     prepare_flat(root)
     w = World(root, 50, None)
-    sys.stdout.write(w.run(ops()[k]))
+    sys.stdout.write(w.run(_ops_of(which)[k]))
     return 0
 
 
-def goldens(root):
+def goldens(root, which='main'):
     out = []
     env = dict(os.environ, PYTHONPATH=REPO + ':' + VERIF)
-    procs = [subprocess.Popen([sys.executable, '-m', 'mc.checks.c13', 'golden', root, str(k)], cwd=VERIF, env=env,
-                              stdout=subprocess.PIPE, stderr=subprocess.PIPE, text=True) for k in range(len(ops()))]
+    procs = [subprocess.Popen([sys.executable, '-m', 'mc.checks.c13', 'golden', root, which, str(k)], cwd=VERIF, env=env,
+                              stdout=subprocess.PIPE, stderr=subprocess.PIPE, text=True) for k in range(len(_ops_of(which)))]
     for k, pr in enumerate(procs):
         o, e = pr.communicate(timeout=300)
         if pr.returncode != 0:
@@ -256,10 +384,11 @@ _G = None
 
 
 def run_histories(args):
-    root, hists, configs, gold = args
+    root, hists, configs, gold = args[:4]
+    which = args[4] if len(args) > 4 else 'main'
     p = Partial()
     prepare_flat(root)
-    O = ops()
+    O = _ops_of(which)
     for limit, ccache in configs:
         for h in hists:
             w = World(root, limit, ccache)
@@ -271,7 +400,7 @@ def run_histories(args):
                 if got != gold[k]:
                     prev = [O[j][0] for j in h[:step]]
                     p.violation('history|%s|after-%s' % (O[k][0].split(':')[0], (O[h[step - 1]][0].split(':')[0] if step else 'nothing')),
-                                {'history': list(h), 'limit': limit, 'ccache': ccache, 'step': step},
+                                {'history': list(h), 'limit': limit, 'ccache': ccache, 'step': step, 'pool': which},
                                 'with table-cache limit %d and compiled cache %r, after %r the operation %s gives a result that '
                                 'differs from its result in a fresh process: %s' % (limit, ccache, prev, O[k][0], _short_diff(got, gold[k])))
                     break
@@ -358,9 +487,22 @@ def golden_checks(gold):
     return pre
 
 
+def golden_checks2(gold):
+    pre = Partial()
+    for k, (oname, kind, b) in enumerate(ops2()):
+        pre.n['exec'] += 1
+        fails = oname.split(':')[1] in FAILING2 and kind not in ('Di', 'Dn')
+        pre.outcome((kind, gold[k][:4] == 'EXC '))
+        if (gold[k][:4] == 'EXC ') != fails:
+            pre.violation('golden|%s' % oname, {'op': oname, 'pool': 'opstate'}, 'in a fresh process %s gives %s' % (oname, gold[k][:80]))
+    pre.n['nodes'], pre.n['edges'] = len(ops2()) + 1, len(ops2())
+    return pre
+
+
 def replay(part, case):
     root = build_mini_tables(scratch_root() + '_replay_%d' % os.getpid())
     try:
+        prepare_flat(root)
         if part == 'real-limit':
             alt = os.path.join(root, 'alt_tables')
             os.symlink(tables.TABLES_ROOT, alt)
@@ -368,9 +510,13 @@ def replay(part, case):
         elif part == 'goldens':
             p = golden_checks(goldens(root))
             p.viol = [v for v in p.viol if v['case']['op'] == case['op']]
+        elif part == 'goldens-opstate':
+            p = golden_checks2(goldens(root, 'opstate'))
+            p.viol = [v for v in p.viol if v['case']['op'] == case['op']]
         else:
-            gold = goldens(root)
-            p = run_histories((root, [tuple(case['history'])], [(case['limit'], case['ccache'])], gold))
+            which = case.get('pool', 'main')
+            gold = goldens(root, which)
+            p = run_histories((root, [tuple(case['history'])], [(case['limit'], case['ccache'])], gold, which))
         return [{'sig': v['sig'], 'detail': v['detail']} for v in p.viol]
     finally:
         shutil.rmtree(root, ignore_errors=True)
@@ -387,6 +533,7 @@ def main(tier, seed):
                        'that a table-group load costs ~1 ms; the real tables are used by the real-limit part']
     root = build_mini_tables(scratch_root())
     try:
+        prepare_flat(root)
         gold = goldens(root)
         # the goldens must be reproducible (two fresh processes agree), otherwise nothing can be concluded
         gold2 = goldens(root)
@@ -408,6 +555,20 @@ def main(tier, seed):
                 rep.add_part('histories-limit%d-cc%s' % (limit, ccache), p,
                              bounds={'operations': n, 'max_length': maxlen, 'histories': len(hists), 'table_cache_limit': limit,
                                      'compiled_cache': ccache, 'distinct_table_groups_in_pool': 6})
+        gold_o = goldens(root, 'opstate')
+        if gold_o != goldens(root, 'opstate'):
+            print('HARNESS-ERROR property=C13 golden observations (operator-state pool) differ between two fresh processes')
+            return 2
+        rep.add_part('goldens-opstate', golden_checks2(gold_o), bounds={'operations': len(ops2())})
+        n2 = len(ops2())
+        maxlen2 = 3 if tier == 'quick' else 4
+        hists2 = [h for L in range(1, maxlen2 + 1) for h in itertools.product(range(n2), repeat=L)]
+        for ccache in ((None, 1) if tier == 'quick' else (None, 1, 3)):
+            p = merge_all(run_shards(run_histories, [(root, s_, [(3, ccache)], gold_o, 'opstate') for s_ in split(hists2, 64)]))
+            p.sample({'operations': [o[0] for o in ops2()], 'history': [ops2()[j][0] for j in hists2[len(hists2) // 2]]})
+            rep.add_part('opstate-cc%s' % ccache, p,
+                         bounds={'operations': n2, 'max_length': maxlen2, 'histories': len(hists2), 'compiled_cache': ccache,
+                                 'pool': 'messages that end or fail with operator state in force, then plain messages'})
         if tier == 'thorough':
             h5 = [h for h in itertools.product(range(n), repeat=5) if h[0] <= 8]       # every history of 5 that starts with a decode
             p = merge_all(run_shards(run_histories, [(root, s, [(2, 1)], gold) for s in split(h5, 128)]))
@@ -427,3 +588,5 @@ def main(tier, seed):
 if __name__ == '__main__':
     if len(sys.argv) > 1 and sys.argv[1] == 'golden':
         sys.exit(golden_main(sys.argv[2:]))
+    if len(sys.argv) > 1 and sys.argv[1] == 'flat':
+        sys.exit(flat_main(sys.argv[2:]))
